@@ -56,6 +56,8 @@ impl LineSpectralPairs {
             gamma: self.gamma,
         };
         for k in 0..=m {
+            #[cfg(feature = "verif-hooks")]
+            crate::verif::point("lsp.lsp2lpc");
             let xx = if k == 0 { 1.0 } else { 0.0 };
             if m % 2 == 1 {
                 a0[0] = xx;
@@ -112,6 +114,8 @@ impl LineSpectralPairs {
         if beta > 0.0 && self.len() > 2 {
             let mut buf = vec![0.0; self.len()];
             let en1 = self.lsp2en();
+            #[cfg(feature = "verif-hooks")]
+            crate::verif::point("lsp.postfilter");
             for i in 0..self.len() {
                 if i > 1 && i < self.len() - 1 {
                     let d1 = beta * (self[i + 1] - self[i]);
@@ -141,6 +145,8 @@ impl LineSpectralPairs {
         let min = 0.25 * PI / self.len() as f64;
         let last = self.len() - 1;
         for _ in 0..4 {
+            #[cfg(feature = "verif-hooks")]
+            crate::verif::point("lsp.stability");
             let mut find = false;
             for j in 1..last {
                 let tmp = self[j + 1] - self[j];
